@@ -68,8 +68,13 @@ Section Eval.
                                 end) vs (pass v0)
     end.
 
-  Fixpoint nodup_keys (l : list key) : list key :=
-    match l with [] => [] | k :: l' => if existsb (Nat.eqb k) l' then nodup_keys l' else k :: nodup_keys l' end.
+  (* the variables of an expression in order of FIRST appearance (HashedIterable built from _all_variable_instances_) *)
+  Fixpoint nodup_keys_from (seen l : list key) : list key :=
+    match l with
+    | [] => []
+    | k :: l' => if existsb (Nat.eqb k) seen then nodup_keys_from seen l' else k :: nodup_keys_from (k :: seen) l'
+    end.
+  Definition nodup_keys (l : list key) : list key := nodup_keys_from [] l.
 
   Fixpoint eval (c : cond) (b : binding) (ywf : bool) : list (binding * bool) :=
     match c with
